@@ -29,7 +29,7 @@ from nbdime.args import (
     add_generic_args, add_diff_args, add_merge_args, add_filename_args,
     add_git_config_subcommand, ConfigBackedParser,
 )
-from nbdime.utils import locate_gitattributes, ensure_dir_exists
+from nbdime.utils import locate_gitattributes, has_gitattribute, ensure_dir_exists
 
 
 def enable(scope=None):
@@ -49,7 +49,7 @@ def enable(scope=None):
 
     if os.path.exists(gitattributes):
         with io.open(gitattributes, encoding="utf8") as f:
-            if 'merge=jupyternotebook' in f.read():
+            if has_gitattribute(f.read(), '*.ipynb', 'merge=jupyternotebook'):
                 # already written, nothing to do
                 return
     else:
